@@ -341,12 +341,12 @@ func (b *c11Backend) SpecialPaths() *logical.Paths {
 func (b *c11Backend) System() logical.SystemView {
 	return logical.StaticSystemView{DefaultLeaseTTLVal: 24 * time.Hour, MaxLeaseTTLVal: 32 * 24 * time.Hour}
 }
-func (b *c11Backend) Logger() hclog.Logger                                         { return hclog.NewNullLogger() }
-func (b *c11Backend) Cleanup(context.Context)                                      {}
-func (b *c11Backend) InvalidateKey(context.Context, string)                        {}
-func (b *c11Backend) Setup(context.Context, *logical.BackendConfig) error          { return nil }
+func (b *c11Backend) Logger() hclog.Logger                                             { return hclog.NewNullLogger() }
+func (b *c11Backend) Cleanup(context.Context)                                          {}
+func (b *c11Backend) InvalidateKey(context.Context, string)                            {}
+func (b *c11Backend) Setup(context.Context, *logical.BackendConfig) error              { return nil }
 func (b *c11Backend) Initialize(context.Context, *logical.InitializationRequest) error { return nil }
-func (b *c11Backend) Type() logical.BackendType                                    { return b.typ }
+func (b *c11Backend) Type() logical.BackendType                                        { return b.typ }
 
 // c11Proxy records handler entry of a built-in backend and delegates.
 type c11Proxy struct {
@@ -557,6 +557,7 @@ type c11Case struct {
 	P       int
 	Pattern []int
 	Kind    string
+	Group   int // ordinal of the (k, pattern) pair: shards partition on it so that every shard sees every kind
 }
 
 func c11Pow3(n int) int {
@@ -1084,10 +1085,12 @@ func (w *c11World) runCase(seed int64, cs *c11Case) *c11Judge {
 
 func c11CaseList(seed int64) []*c11Case {
 	var out []*c11Case
+	group := 0
 	add := func(k, p int) {
 		for _, kind := range c11Kinds {
-			out = append(out, &c11Case{ID: fmt.Sprintf("ord:k%d:p%d:%s", k, p, kind), K: k, P: p, Pattern: c11Pattern(k, p), Kind: kind})
+			out = append(out, &c11Case{ID: fmt.Sprintf("ord:k%d:p%d:%s", k, p, kind), K: k, P: p, Pattern: c11Pattern(k, p), Kind: kind, Group: group})
 		}
+		group++
 	}
 	// every assignment for k <= 3 (k <= 4 in the thorough tier), a seeded sample of the next k
 	full := kit.N(3, 4)
@@ -1149,10 +1152,12 @@ func TestVerif_C11_Order(t *testing.T) {
 	shard, shards := kit.Shard()
 	worlds := map[int]*c11World{}
 	patterns := map[string]bool{}
-	for i, cs := range cases {
-		if i%shards != shard {
+	mine := 0
+	for _, cs := range cases {
+		if cs.Group%shards != shard {
 			continue
 		}
+		mine++
 		w := worlds[cs.K]
 		if w == nil {
 			w = c11Boot(t, r, cs.K, "")
@@ -1178,7 +1183,7 @@ func TestVerif_C11_Order(t *testing.T) {
 		}
 		w.runCase(seed, cs)
 	}
-	r.Require("cases", int64(len(cases)/shards*9/10))
+	r.Require("cases", int64(mine))
 	r.Require("backend_entries_observed", 500)
 	r.Require("backend_entries:vrec/", 200)
 	r.Require("backend_entries:sys/", 50)
@@ -1331,3 +1336,14 @@ func TestVerif_C11_FileDevice(t *testing.T) {
 	}
 }
 
+// Replay support: see the note in format_test.go. The formatter monitor lives
+// in internal/audit; replaying one of its witnesses must not make this package
+// look broken.
+func TestVerif_C11_FormatCanary(t *testing.T) {
+	if kit.OnlyCase() == "" {
+		t.Skip("replay stub: the real monitor lives in internal/audit")
+		return
+	}
+	r := kit.NewResult(t, "c11-replay-stub-vault-format", kit.Seed(11), "replay stub (the monitor of this name lives in the other package of the plan)")
+	r.Write(t)
+}
